@@ -32,7 +32,7 @@ func genRedefine(r *rand.Rand) redefCase {
 	lab := func(allowName bool) Label {
 		l := Label{Type: r.Intn(nT)}
 		if ifaceOK && r.Intn(8) == 0 {
-			l.Type = nConcrete + r.Intn(2)
+			l.Type = randIface(r)
 		}
 		if allowName && r.Intn(2) == 0 {
 			n := pick(r, names)
@@ -91,7 +91,7 @@ func genRedefine(r *rand.Rand) redefCase {
 	for i := r.Intn(3); i > 0; i-- {
 		t.Out = append(t.Out, Label{Type: r.Intn(nT)})
 		if r.Intn(10) == 0 {
-			t.Out[len(t.Out)-1].Type = nConcrete + r.Intn(2)
+			t.Out[len(t.Out)-1].Type = randIface(r)
 		}
 	}
 	t.HasErr = r.Intn(2) == 0
@@ -206,12 +206,12 @@ func genRedefine(r *rand.Rand) redefCase {
 		if m == nil {
 			continue
 		}
-		for _, it := range []int{tI0, tI1} {
+		for _, it := range []int{tI0, tI1, tI2} {
 			if r.Intn(4) == 0 {
 				m[it] = true
 			}
 			if m[it] {
-				for cc := 0; cc < nConcrete; cc++ {
+				for cc := 0; cc < len(types); cc++ {
 					if implements(cc, it) {
 						m[cc] = true
 					}
